@@ -12,6 +12,7 @@ import NanoVerif.Model.Csv
 import NanoVerif.Model.Valid
 import NanoVerif.Model.PaintedLayers
 import NanoVerif.Model.Ninja
+import NanoVerif.Model.Sched
 /-
 Correspondence driver.  One JSON object per input line: {"op": ..., ...}; one JSON object per
 output line.  Run: `lake env lean --run Driver.lean < ops.jsonl`.
@@ -191,6 +192,13 @@ def jDir (old : BuildDir) (b : BuildDir) (vis : Bool) : Json :=
 
 def dispatch (op : String) (j : Json) : Except String Json := do
   match op with
+  | "sched-run" =>
+      -- deps: list of lists (node i depends on deps[i]); step function: (sum of inputs) * 31 + n * 7 + 1; schedule: list of nodes
+      let deps ← (← getArr (← field j "deps")).mapM getNats
+      let sched ← getNats (← field j "schedule")
+      let G : BuildGraph := { deps := fun n => deps.getD n [], f := fun n vals => vals.foldl (· + ·) 0 * 31 + n * 7 + 1 }
+      let env := G.run sched (fun _ => 0)
+      return obj [("values", Json.arr ((List.range deps.length).map (fun i => jI (Int.ofNat (env i)))).toArray)]
   | "ninja-history" =>
       let src ← getNats (← field j "source")
       let ops ← getArr (← field j "ops")
